@@ -43,7 +43,7 @@ Section Live.
     intros HI Hf0.
     destruct HI as [o Hs Hf Hr Hi | k0 o Hk Hmiss Hs Hf Hr Hi | s o Hreg Hv Hmiss Ht Hs Hf Hr Hi
                    | s o t Hreg Hv Hhit Ht Hs Hf Hr Hi]; try lia.
-    - exists 0%nat, 0, ((if v2 then 3 else 1) :: le_bytes (il v2) n ++ le_bytes 4 crc ++ extra).
+    - exists 0%nat, 0, (info_cmd v2 :: le_bytes (il v2) n ++ le_bytes 4 crc ++ extra).
       split; [now rewrite Hs|]. split.
       + cbn [packet_of]. rewrite Hs. cbn [nth_error]. unfold d.
         rewrite (dev_reply_info c v2 items raw crc extra Hraw); [reflexivity|exact Hn].
@@ -53,13 +53,13 @@ Section Live.
     - destruct (nth_error items k0) as [it|] eqn:Eit.
       2:{ apply nth_error_None in Eit. lia. }
       destruct (dev_reply_item c cache v2 items raw crc extra Hraw Hn k0 it Eit) as (tb & Htb & Erp).
-      exists (S k0), 0, ((if v2 then 2 else 0) :: idb v2 (Z.of_nat k0) ++ tb :: di_group it ++ [0] ++ di_name it ++ [0]).
+      exists (S k0), 0, (item_cmd v2 :: idb v2 (Z.of_nat k0) ++ tb :: di_group it ++ [0] ++ di_name it ++ [0]).
       split; [|split].
       + rewrite Hs. cbn [List.length]. f_equal.
         clear. generalize 0. induction (S k0) as [|m IH]; intros i; cbn; [reflexivity|now rewrite IH].
       + cbn [packet_of]. rewrite Hs. cbn [nth_error]. rewrite item_reqs_nth by lia.
         rewrite Z.add_0_l. unfold d. rewrite Erp. reflexivity.
-      + rewrite (on_packet_elem c cache v2 _ _ _ _ _ (idb v2 (Z.of_nat k0)) _ (idb_len _ _)).
+      + rewrite (on_packet_elem c cache v2 _ _ _ _ (idb v2 (Z.of_nat k0)) _ (idb_len _ _)).
         rewrite idb_val by (unfold n in Hn; lia). rewrite Z.eqb_refl. cbn [negb].
         assert (Hitok : item_ok it).
         { rewrite Forall_forall in Hok. apply Hok. eapply nth_error_In. exact Eit. }
